@@ -91,6 +91,10 @@ func markerOf(u *openfgav1.Userset, md *openfgav1.RelationMetadata) string {
 	for _, r := range md.GetDirectlyRelatedUserTypes() {
 		m = append(m, r.GetType())
 	}
+	// the first restriction names the file the relation was written in (k<file number>); layouts may append others
+	if len(m) > 1 {
+		m = m[:1]
+	}
 	return strings.Join(m, ",") + "|" + absRw(u).K
 }
 
